@@ -38,6 +38,14 @@ def run(ctx):
             for i, ln in enumerate(fh):
                 if i % 5003 == 17 and len(ctx.cov["samples"]) < 4:
                     ctx.cov["samples"].append(json.loads(ln))
+    # the on-disk dictionary of a real sealed fraction: token tables that span several 16 KiB blocks, dictionaries
+    # around block borders, fractions reloaded from their files (IndexLayout.tla's real-size shapes, C03's machinery;
+    # exact / prefix / range lookups with answers computed by the specification)
+    from checks import c03
+    sdrv = vlib.build_driver("shapes")
+    _, ssumm = c03.replay_shapes(ctx, sdrv, "IndexLayout_real_small.cfg" if quick else "IndexLayout_real.cfg", "dict-big", only_search=True)
+    for k in tot:
+        tot[k] += ssumm[k]
     ctx.cov["traces_validated_against_impl"] = tot["cases"]
     ctx.cov["evaluations"] = tot["evals"]
     ctx.cov["distinct_nontrivial"] = tot["nontrivial"]
@@ -45,6 +53,6 @@ def run(ctx):
     ctx.cov["rule"] = ("one case per TLC state: (sorted dictionary subset, contiguous block layout, pattern|range); exhaustive over "
                        "tokens of length <= MaxTokLen over {a,b}, dictionaries of <= MaxDict tokens, every composition into blocks, "
                        "every pattern of <= 3 terms (text <= 2 chars, adjacent wildcards, empty literal); family match: the dictionary of all 63 tokens of length <= 5 in 1 block and in blocks of 7 x every pattern of <= 4 (thorough 5) terms with text <= 3 chars; every range over the end palette "
-                       "x open/closed; non-trivial = reference result neither empty nor the whole dictionary; each case is run through 3 code paths")
+                       "x open/closed; non-trivial = reference result neither empty nor the whole dictionary; each case is run through 3 code paths; plus 16 (thorough 40) real-size shapes of IndexLayout.tla probed on the active, sealed and reloaded fraction (dictionaries and token tables over several blocks)")
     ctx.assumptions += ["findSubstring is modelled by its contract (leftmost occurrence), the KMP loop itself is exercised only on the Go side",
-                        "numeric tokens restricted to the decimal syntax of QueryRef!IsNum"]
+                        "numeric tokens restricted to the decimal syntax of QueryRef!IsNum (sign + or -, digits with an optional point anywhere, one-digit exponent); upper-case E, hex, inf/nan spellings are not in the palette"]
